@@ -212,7 +212,8 @@ def json_leaves(j):
 
 
 def canon(j):
-    return json.dumps(j, sort_keys=True)
+    # a value that is not plain JSON data (reported by the oracle as such) must not stop the other comparisons
+    return json.dumps(j, sort_keys=True, default=lambda o: "<%s %r>" % (type(o).__name__, o))
 
 
 def named_same_class_operand(T, tree):
